@@ -181,7 +181,8 @@ def list_targets(coredata: cdata.CoreData, builddata: build.Build, backend: back
         if not isinstance(target, build.Target):
             raise RuntimeError('The target object in `builddata.get_targets()` is not of type `build.Target`. Please file a bug with this error message.')
 
-        outdir = get_target_dir(builddata.environment.coredata, target.get_builddir())
+        # ask the backend: under layout=flat it keeps the build_subdir of the target below meson-out
+        outdir = backend.get_target_dir(target)
         if isinstance(target, build.CompileTarget):
             # the outputs of compiler.preprocess() are written to the private directory
             outdir = backend.get_target_private_dir(target)
